@@ -158,6 +158,11 @@ def gen_patterns(rng):
     if rng.random() < 0.15:
         return rng.sample(['adapter_module', r'module\.', r'^module', r'_orig_mod\.', r'_module\.fc', 'submodule', r'module\.\d'],
                           rng.choice([1, 2]))
+    if rng.random() < 0.12:
+        # patterns whose match is zero-width (look-aheads used as whitelists, optional groups, the empty pattern): a match is
+        # a match, however many characters it spans
+        zw = [r'^(?!fc)', r'^(?=conv|head)', r'(proj)*', '', r'^(?![^.]*\.)', r'\b(?=x)', r'(?<=\.)(?=0)', r'$']
+        return rng.sample(zw, rng.choice([1, 1, 2]))
     atoms = ['fc', 'conv', 'Linear', 'linear', '^0', '0$', r'\.1', 'proj|head', 'Conv2d', '^$', 'a', 'My', 'x.y',
              'Parallel', 'column', r'^\w+\.\d$', 'dense', 'l0', 'Sub$', '.']
     if rng.random() < 0.25:
